@@ -26,6 +26,9 @@ mod verif_witness_c11_search_view {
         for (fen, mated) in [
             ("6k1/8/8/8/8/8/5PPP/3r2K1 w - - 0 40", true), ("3R2k1/5ppp/8/8/8/8/8/6K1 b - - 0 40", true),
             ("7k/5Q2/6K1/8/8/8/8/8 b - - 0 40", false), ("8/8/8/8/8/6k1/5q2/7K w - - 0 40", false),
+            // mates and a stalemate with minor pieces only ("insufficient material" by count, yet the game is over)
+            ("kn6/2N5/1K6/8/8/8/8/8 b - - 0 40", true), ("kb6/1B6/1K6/8/8/8/8/8 b - - 0 40", true), ("8/8/8/8/8/6k1/5n2/6NK w - - 0 40", true),
+            ("k7/2K5/1B6/8/8/8/8/8 b - - 0 40", false),
         ] {
             let (uci_tx, _uci_rx) = channel();
             let (_search_tx, search_rx) = channel();
